@@ -2,9 +2,9 @@ INIT Init
 NEXT XNext
 CONSTANTS
   Alphabet <- UriAlphabet
-  MaxLen = 3
-  Fns <- UriFns
-  Extra <- NoInputs
+  MaxLen = 0
+  Fns <- TokFnsT
+  Extra <- TokInputs4
   KnownLiterals <- KnownLits
 INVARIANT DecodeTotal
 INVARIANT DecodeIdentityOnPlain
